@@ -425,6 +425,42 @@ theorem C11_inner_requests (cfg : Cfg) (answers : List (Option Bool)) (env : Env
     rw [onConnect_off cfg answers env host hoff] at hres
     cases hres
 
+/-! ## TLS records that arrive in pieces -/
+
+/-- **C11 record fragments are stutter steps.**  Inside an intercepted session a TLS
+record may reach the proxy split over several TCP segments: the descriptor is
+reported readable, `recv` raises `ssl.SSLWantReadError` (record incomplete).  For the
+client side (`HttpProtocolHandler.handle_readables`: "try again later") and the
+upstream side (`read_from_descriptors`) alike, such a round — nothing writable —
+changes nothing: `handle_events` returns `False`, no buffer, no ghost history and no
+teardown flag moves (only the per-tick trace fields are reset).  So however a record
+is cut, the relay resumes from the same state when the rest arrives. -/
+theorem C11_record_fragment_stutter (s : St) (t : Tick)
+    (hrt : s.readsTeared = false) (hcw : t.cW = false) (huw : t.uW = false)
+    (hc : t.cR = true → t.cRecv = .sslWantRead) (hu : t.uR = true → t.uRecv = .sslWantRead) :
+    Relay.tick s t = ({ s with trC := none, trU := none, writesTeared := false }, .cont) := by
+  have e1 : phaseCW { s with trC := none, trU := none } t = ({ s with trC := none, trU := none }, false) := by
+    simp [phaseCW, hcw]
+  have e2 : phaseUW { s with trC := none, trU := none, writesTeared := false } t =
+      ({ s with trC := none, trU := none, writesTeared := false }, false) := by
+    simp [phaseUW, huw]
+  have e3 : phaseCR { s with trC := none, trU := none, writesTeared := false } t =
+      ({ s with trC := none, trU := none, writesTeared := false }, .no) := by
+    unfold phaseCR
+    by_cases h : t.cR = true
+    · simp [h, hc h, Conn.recv]
+    · simp [h]
+  have e4 : phaseUR { s with trC := none, trU := none, writesTeared := false } t =
+      ({ s with trC := none, trU := none, writesTeared := false }, false) := by
+    unfold phaseUR
+    by_cases h : t.uR = true
+    · simp [h, hu h, Conn.recv]
+    · simp [h]
+  unfold Relay.tick
+  simp only [e1, e2]
+  simp only [hrt] at e3 e4
+  simp [readHalf, hrt, e3, e4, finish]
+
 /-! ## IPv6 literal targets (formerly finding D16b) -/
 
 /-- **C11 IPv6 literal verified against the bare address.**  `CONNECT [::1]:443`: the
